@@ -8,5 +8,6 @@ use crate::loop_logic::EventIterator;
 use crate::{loop_logic::LoopInner, sources::EventDispatcher, Interest, Mode, Poll, PostAction, Readiness, Token, TokenFactory};
 use crate::{AdditionalLifecycleEventsSet, RegistrationToken};
 use crate::list::SourceList;
+use crate::rustix;
 //@ include io_body
 } // mod io
